@@ -258,12 +258,13 @@ def run_property(prop, tier, seed=0):
         else:
             new_viol.append(v)
     # output
-    os.makedirs(os.path.join(VERIF, "replay"), exist_ok=True)
-    os.makedirs(os.path.join(VERIF, "evidence"), exist_ok=True)
+    outdir = os.environ.get("OXV_OUTDIR", VERIF)
+    os.makedirs(os.path.join(outdir, "replay"), exist_ok=True)
+    os.makedirs(os.path.join(outdir, "evidence"), exist_ok=True)
     for v, what in known_hits:
         print("KNOWN-FINDING: property=%s %s [%s:%s]" % (prop, what, v["rule"], v["key"]))
     for n, v in enumerate(new_viol):
-        rp = os.path.join(VERIF, "replay", "%s-%d.json" % (prop, n))
+        rp = os.path.join(outdir, "replay", "%s-%d.json" % (prop, n))
         with open(rp, "w") as f:
             json.dump({"property": prop, "rule": v["rule"], "key": v["rule"] + ":" + v["key"], "message": v["msg"],
                        "where": v["where"], "witness": v["witness"], "config": v.get("config")}, f, indent=1)
@@ -311,7 +312,7 @@ def run_property(prop, tier, seed=0):
         "wall_s": round(time.time() - t0, 2),
         "violations": len(new_viol),
     }
-    with open(os.path.join(VERIF, "evidence", prop + ".json"), "w") as f:
+    with open(os.path.join(outdir, "evidence", prop + ".json"), "w") as f:
         json.dump(ev, f, indent=1)
     print("%s: %d instance(s) examined, %d refuted (%d known), %d undecided, tier=%s, %.1fs" %
           (prop, len(all_inst), len(all_viol), len(known_hits), undecided, tier, time.time() - t0))
